@@ -113,7 +113,8 @@ def _mk(download_size, current_size, downloaded, spans, milestones=()):
     c.current_size = current_size
     c.f = FakeFile()
     c.downloaded = downloaded
-    c.milestones = list(milestones)
+    c.milestones = list(milestones)      # heap of (index, sequence number, waiting reader)
+    c.milestone_count = len(c.milestones)
     c.overwrites = list(spans)
     c.is_closed = False
     c.done = "DONE-DEFERRED"
@@ -145,12 +146,16 @@ def _spans_ok(spans, d):
 
 
 def _rel(a, b, code):
-    """code 0: a < b, 1: a == b, 2: a > b"""
+    """code 0: a < b, 1: a == b, 2: a > b, 3: a <= b, 4: a >= b"""
     if code == 0:
         return a < b
     if code == 1:
         return a == b
-    return a > b
+    if code == 2:
+        return a > b
+    if code == 3:
+        return a <= b
+    return a >= b
 
 
 def _case_ok(vals):
@@ -199,7 +204,7 @@ def _check_after_write(c, pre_spans, D, d, n, p, ms_pre):
             continue
         fired_ids.append(tok)
         m = None
-        for (mi, mt) in ms_pre:
+        for (mi, _sq, mt) in ms_pre:
             if mt == tok:
                 m = mi
         if m is None:
@@ -208,13 +213,13 @@ def _check_after_write(c, pre_spans, D, d, n, p, ms_pre):
             ok = (p < d) or _in_spans(pre_spans, p) or (_written(f.log, p, nw) == ("dl", p))
             if not ok:
                 return "milestone fired before every byte below it was settled"
-    for (mi, mt) in ms_pre:
+    for (mi, _sq, mt) in ms_pre:
         if mi <= c.downloaded or c.downloaded >= D:
             if mt not in fired_ids:
                 return "a reached milestone was left waiting"
         in_heap = False
-        for (mj, mtj) in c.milestones:
-            if mtj == mt:
+        for item in c.milestones:
+            if item[-1] is mt:
                 in_heap = True
         if in_heap == (mt in fired_ids):
             return "milestone neither waiting nor fired exactly once"
@@ -290,19 +295,24 @@ class _Tok(object):
         return "<%s>" % (self.name,)
 
 
-def h_write_milestones(D: int, d: int, n: int, nsp: int, s0: int, e0: int, nms: int, m0: int, m1: int, p: int) -> bool:
+def h_write_milestones(D: int, d: int, n: int, nsp: int, s0: int, e0: int, nms: int, m0: int, m1: int, swapseq: bool, p: int) -> bool:
     """
     pre: 0 <= d < D and n >= 0
     pre: 0 <= nsp <= 1 and 0 <= s0 <= e0 and e0 >= d
-    pre: 1 <= nms <= 2 and d < m0 and (nms == 1 or m0 < m1)
+    pre: 1 <= nms <= 2 and d < m0 <= D and (nms == 1 or m0 <= m1 <= D)
+    pre: (not swapseq) or (nms == 2 and m0 < m1)
+    pre: (B.get("nsp") is None or nsp == B["nsp"]) and (B.get("nms") is None or nms == B["nms"])
+    pre: B.get("swap") is None or swapseq == (B["swap"] == 1)
     post: _ == True
     """
     # waiting milestones are > downloaded (they are only queued when index > downloaded, and every
-    # _update_downloaded pops all those <= the new position); two waiting milestones have different indices
+    # _update_downloaded pops all those <= the new position) and <= download_size (read() queues
+    # min(offset+length, download_size); the consumer's contract forbids size changes while a read waits);
+    # two waiting readers may have the same index; they are ordered by their distinct sequence numbers
     pre = [(s0, e0)] if nsp == 1 else []
-    ms = [(m0, _Tok("M0"))]
+    ms = [(m0, 2 if swapseq else 1, _Tok("M0"))]
     if nms == 2:
-        ms.append((m1, _Tok("M1")))
+        ms.append((m1, 1 if swapseq else 2, _Tok("M1")))
     c = _mk(D, D, d, pre, ms)
     c.write(ProvBuf.src("dl", n, d))
     return _check_after_write(c, pre, D, d, n, p, ms)
@@ -342,7 +352,8 @@ def _mk_spans(nsp, s0, e0, s1, e1):
 def h_overwrite(D: int, C: int, d: int, nsp: int, s0: int, e0: int, s1: int, e1: int, offset: int, n: int, p: int) -> bool:
     """
     pre: 0 <= D <= C and 0 <= d and offset >= 0 and n >= 0
-    pre: 0 <= nsp <= 2 and 0 <= s0 <= e0 and e0 >= d and 0 <= s1 <= e1 and e1 >= d
+    pre: 0 <= nsp <= 2 and (B.get("nsp") is None or nsp == B["nsp"])
+    pre: 0 <= s0 <= e0 and e0 >= d and 0 <= s1 <= e1 and e1 >= d
     pre: (s0 < s1) or (s0 == s1 and e0 <= e1)
     post: _ == True
     """
@@ -408,7 +419,7 @@ def h_set_size(D: int, C: int, d: int, nsp: int, s0: int, e0: int, nms: int, m0:
     """
     # d < D: the download is still running (done_status None); the finished case is h_set_size_done
     pre = [(s0, e0)] if nsp == 1 else []
-    ms = [(m0, _Tok("M0"))] if nms == 1 else []
+    ms = [(m0, 1, _Tok("M0"))] if nms == 1 else []
     c = _mk(D, C, d, pre, ms)
     c.set_current_size(size)
     got = _written(c.f.log, p)
@@ -444,7 +455,7 @@ def h_set_size(D: int, C: int, d: int, nsp: int, s0: int, e0: int, nms: int, m0:
     if done:
         if fired.count("DONE-DEFERRED") != 1:
             return "done deferred not fired exactly once"
-        for (mi, mt) in ms:
+        for (mi, _sq, mt) in ms:
             if fired.count(mt) != 1:
                 return "waiting reader not released when the truncated download is complete"
         if c.milestones:
@@ -500,7 +511,7 @@ def h_read(D: int, C: int, d: int, done: bool, failed: bool, offset: int, length
             return "milestone is not min(offset+length, download_size)"
         if c.f.reads:
             return "file read before the milestone"
-        _fire(c.milestones[0][1], b"reached")
+        _fire(c.milestones[0][-1], b"reached")
     if len(out) != 1 or out[0][0] != "ok":
         return "read did not deliver"
     if out[0][1] != ("FILE-SLICE", offset, want_len, 0) or len(c.f.reads) != 1:
@@ -524,8 +535,8 @@ def h_read_two_waiting(D: int, d: int, o1: int, l1: int, o2: int, l2: int) -> bo
     if len(c.milestones) != 2:
         return "both readers must be waiting"
     while c.milestones:
-        (m, dfr) = heapq.heappop(c.milestones)
-        dfr.callback(b"reached")
+        item = heapq.heappop(c.milestones)
+        item[-1].callback(b"reached")
     w1 = l1 if o1 + l1 <= D else D - o1
     w2 = l2 if o2 + l2 <= D else D - o2
     if len(out1) != 1 or out1[0][:3] != ("FILE-SLICE", o1, w1):
@@ -554,17 +565,17 @@ def h_read_closed(D: int, d: int, offset: int, length: int) -> bool:
 
 def h_done_releases(D: int, d: int, m0: int, m1: int) -> bool:
     """
-    pre: 0 <= d < D and d < m0 < m1
+    pre: 0 <= d < D and d < m0 <= m1
     post: _ == True
     """
-    ms = [(m0, _Tok("M0")), (m1, _Tok("M1"))]
+    ms = [(m0, 1, _Tok("M0")), (m1, 2, _Tok("M1"))]
     c = _mk(D, D, d, [], ms)
     c.download_done(b"closed")
     c.download_done(b"again")
     fired = [x[0] for x in FIRED]
     if c.done_status != b"closed":
         return "only the first download_done counts"
-    if fired.count("DONE-DEFERRED") != 1 or fired.count(ms[0][1]) != 1 or fired.count(ms[1][1]) != 1 or len(fired) != 3:
+    if fired.count("DONE-DEFERRED") != 1 or fired.count(ms[0][2]) != 1 or fired.count(ms[1][2]) != 1 or len(fired) != 3:
         return "waiting readers released exactly once"
     if c.milestones:
         return "milestones left"
@@ -586,6 +597,7 @@ def h_history(D: int, o1: int, l1: int, o2: int, l2: int, c1: int, n2: int, p: i
     pre: 1 <= D and 0 <= o1 and 0 <= l1 and 0 <= o2 and 0 <= l2
     pre: 0 <= c1 <= D and c1 + n2 >= D and n2 >= 0
     pre: _case_ok((D, o1, l1, o2, l2, c1, n2)) and 0 <= p
+    pre: (not B.get("exact_tail")) or c1 + n2 == D
     post: _ == True
     """
     sched = _SCHEDULES[B.get("sched", 0)]
